@@ -891,12 +891,14 @@ class WorkflowConductor(object):
         # last task entry is already completed and the new task status is one of the
         # starting statuses, then there is high likelihood that this is a cycle.
         # If the task is not staged, then there is no next run of the task to start
-        # and this is a late report for the completed task.
+        # and this is a late report for the completed task. The same applies to the
+        # staged entry that is kept and flagged completed for a failed task with items.
         if (
             task_state_entry.get("status") in statuses.COMPLETED_STATUSES
             and event.status
             and event.status in statuses.STARTING_STATUSES
             and staged_task
+            and not staged_task.get("completed", False)
         ):
             task_state_entry = self.add_task_state(
                 task_id,
